@@ -202,7 +202,7 @@ def count_lines(case):
 
 def run(tier: str, seed: int) -> Result:
     silence_labtech()
-    cases = ['pickle-small', 'json-small'] + (['pickle-multi'] if tier == 'quick' else ['pickle-multi', 'json-multi'])
+    cases = ['pickle-small', 'json-small', 'pickle-blob'] + (['pickle-multi'] if tier == 'quick' else ['pickle-multi', 'json-multi'])
     viols = []
     n_states = n_cached = 0
     tops = []
